@@ -75,13 +75,13 @@ def _expected(chains, cyclic):
     return nterm, cterm
 
 
-def h_termini(eng, layout, first=None):
+def h_termini(eng, layout, first=None, na=3):
     from pdb2pqr import aa
     from pdb2pqr import biomolecule as biomol
 
     if layout == "kinds":
         # one chain of three residues of symbolic kind + a second chain of 0-2 residues
-        a = [(KINDS[first if (i == 0 and first is not None) else eng.choice(f"a{i}", len(KINDS))], False) for i in range(3)]
+        a = [(KINDS[first if (i == 0 and first is not None) else eng.choice(f"a{i}", len(KINDS))], False) for i in range(na)]
         nb = eng.choice("nb", 3)
         b = [(["ALA", "WAT", "LIG"][eng.choice(f"b{i}", 3)], False) for i in range(nb)]
         chains = [("A", a)] + ([("B", b)] if nb else [])
@@ -248,7 +248,7 @@ NA_FFS = {"dna": ["amber", "charmm", "tyl06"], "rna": ["amber", "charmm", "parse
 
 def obligations(tier):
     obs = [
-        *[Obligation(f"termini-kinds-first={KINDS[k]}", h_termini, dict(layout="kinds", first=k), group="termini", time_cap=3000, max_paths=400000) for k in range(len(KINDS))],
+        *[Obligation(f"termini-kinds-first={KINDS[k]}", h_termini, dict(layout="kinds", first=k, na=3 if tier == "quick" else 4), group="termini", time_cap=3000, max_paths=400000) for k in range(len(KINDS))],
         Obligation("termini-hidden-ends", h_termini, dict(layout="hidden-ends"), group="termini", time_cap=3000, max_paths=100000),
         Obligation("termini-blank-chain", h_termini, dict(layout="blank-chain"), group="termini", time_cap=1500, max_paths=100000),
         Obligation("guard", h_guard, {}, group="guard", time_cap=600),
@@ -279,7 +279,7 @@ META = dict(
         "guard: pdb2pqr.utilities.round/abs and pdb2pqr.residue.float -> symx shims",
     ],
     bounds=[
-        "kinds: chain A of three residues over {ALA, PRO, GLY, water, unknown hetero group} + chain B of 0-2 residues over {ALA, water, hetero group}; hidden ends: five amino acids in one chain with any subset of the first four carrying OXT + a second chain; blank chain id variant; closure distance of each chain an arbitrary positive real (cyclic test at 1.35 A); --neutraln/--neutralc symbolic",
+        "kinds: chain A of three (thorough four) residues over {ALA, PRO, GLY, water, unknown hetero group} + chain B of 0-2 residues over {ALA, water, hetero group}; hidden ends: five amino acids in one chain with any subset of the first four carrying OXT + a second chain; blank chain id variant; closure distance of each chain an arbitrary positive real (cyclic test at 1.35 A); --neutraln/--neutralc symbolic",
         "guard: every real charge in (-1000, 1000); residue charge: 1-2 (thorough 3) symbolic atom charges in [-2,2]",
         "formal charges: table lemma (finite, exhaustive over listed rows)",
     ],
